@@ -34,6 +34,30 @@ CHECKS = {
    technique="exhaustive fault injection at every byte offset of the output stream (short write+error, error per call) and of the input stream (sticky non-EOF error) for a family of files",
    text="For ~100 API-built values (every message class, 1-3 tracks, running status on/off, metric/SMPTE): the destination accepts exactly k bytes and then fails, for every k in 0..size+1, in two modes; WriteTo must return an error iff the fault fired, else nil with the exact size and bytes. On the written bytes and on generated byte-level files (running status, alien chunks, packets): a sticky non-EOF error from every offset on; whenever the error was handed to the library, ReadFrom must return an error; when it never fired the content must be intact.",
    note="Trusted: fault writer/reader in harness/faultio. Errors are injected alone (never together with data) and are sticky, as the quantifier says."),
+ "C04": dict(level="model_checking", engine="bfs", design="4/C04",
+   technique="explicit-state BFS on the product (decoder private state read by reflection x reference receiver x sender automaton) over sender-legal byte classes to the fixpoint, plus bounded exhaustive sender space (sequences x running-status elisions x real-time insertions x all partitions into Send calls x time deltas)",
+   text="(a) every sender-legal byte stream of any length over 23 byte classes: the search over single-byte Sends reaches its fixpoint, every transition executed on the real ListenTo/testdrv loopback and compared with the reference receiver. (b) message sequences up to depth 4/5 over 18 messages with every legal running-status elision, bytewise and in one chunk; up to depth 3 every partition of the wire stream into Send calls; up to depth 2 additionally all time-delta assignments {0,1,5} ms, one real-time byte at every position x every partition, two real-time bytes at every pair of positions. Expected: each message once, complete, explicit status, in order of completion, stamped with the accumulated time of the completing chunk (sysex: between first and last byte).",
+   note="Trusted: reference receiver/sender automata (DESIGN.md appendix A); reflection dump of the decoder state (over-fine keys cost time, never soundness). time.Now inside testdrv is replaced by a constant through import substitution (overlay), Driver.Sleep is the clock."),
+ "C06": dict(level="model_checking", engine="bfs", design="4/C06",
+   technique="explicit-state BFS on the product (decoder private state x reference MIDI 1.0 receiver) over all 23 byte classes, unrestricted, to the fixpoint; plus all short streams with all chunkings and garbage-prefix streams",
+   text="Every byte stream of any length over 23 byte classes (two data values, every channel status kind, F0-F7 each, five real-time bytes) for sysex on/off and buffer sizes 3, 5, 8: the product search reaches its fixpoint; on every transition the deliveries must equal the reference receiver's (new status abandons an incomplete message, data without status ignored, undefined status skipped, oversized sysex dropped), every delivered message must be well formed, and nothing may panic. Plus all streams of length <=5/6 with all chunkings (<=4/5) and garbage prefixes of <=3 classes before well-formed messages.",
+   note="Trusted: reference receiver. Delivery of the undefined real-time bytes F9/FD is not judged. A state cap turns a non-converging search into exhaustive:false, not an alarm."),
+ "C07": dict(level="exploration", engine="enum", design="4/C07",
+   technique="complete enumeration of the finite constructor argument domains against the MIDI 1.0 wire table, every accessor, and a loopback send",
+   text="NoteOn/NoteOffVelocity/NoteOff/PolyAfterTouch/ControlChange over all in-range arguments plus out-of-range boundaries (thorough: all 256^3), ProgramChange/AfterTouch over all 256^2, Pitchbend over 18 (thorough 256) channel arguments x all 65536 values, all 65536 SPP, all 256 MTC/SongSelect, Tune: bytes equal the wire table on clamped arguments (out-of-range system common: well-formed only), no data byte above 127, matching accessor returns the clamped arguments, every other type-specific accessor rejects, and the message arrives byte-identical through the loopback.",
+   note="Trusted: wire table in the harness (status nibble, 7-bit data, 14-bit LSB first)."),
+ "C08": dict(level="exploration", engine="enum", design="4/C08",
+   technique="complete enumeration of all byte strings of length 0..3 (and bounded longer ones) through every classification method and accessor",
+   text="All 16,843,009 byte strings of length 0..3 as midi.Message and as smf.Message, all strings of length 4..6/7 over a 12-byte alphabet, FF x all 256 types x 9 length bytes x payload lengths 0..8, and the outputs of all meta constructors: Type/Is/IsOneOf/IsPlayable/String and every Get* return without panic; exactly one of channel / system common / real-time / sysex / unknown (/ meta) holds; at most one type-specific accessor accepts and then Type() is that accessor's type; leading FF is reset for midi.Message and never real-time or playable for smf.Message.",
+   note="Non-nil out-parameters only. Strings whose meta length field declares 2^21 bytes or more are skipped in the long-string space (String() would allocate that much; memory is not this property's subject)."),
+ "C13": dict(level="exploration", engine="enum", design="4/C13",
+   technique="bounded exhaustive enumeration of live message sequences x inter-arrival times x tempi x resolutions through Track.RecordFrom / SMF.RecordFrom on the loopback, then write, strict parse and read back",
+   text="Sequences up to depth 3/4 over 21 messages (all channel kinds, real-time, system common, sysex, active sensing, stray data, stray F7), every assignment of gaps {0,1,10,1000} ms, tempi {20,61.5,120,400} x resolutions {24,960,15360}: the track starts with the tempo, holds every channel message that arrives (per the reference receiver) unchanged and in order at ticks within one tick per stored delta of the exact conversion; the written file passes the strict parser and the library reads it back to the same events.",
+   note="time.Sleep in smf.go and time.Now in testdrv are virtual (import substitution through the overlay). Whether non-channel messages are stored or dropped is not judged."),
+ "C14": dict(level="model_checking", engine="bfs", design="4/C14",
+   technique="explicit-state BFS on pairs (listener with all options, listener with the option combination) over sender-legal byte classes to the fixpoint, plus the bounded sender space, differential projection oracle",
+   text="For each of the 8 combinations of the sysex / timing-clock / active-sense options: the pair search over single-byte Sends reaches its fixpoint (streams of every length); plus sequences up to depth 4/5 with elisions, bytewise and one chunk, every partition with time deltas and each real-time class at every position up to depth 2. The restricted listener must receive exactly what the full listener receives minus the disabled classes, with identical bytes, order and time stamps.",
+   note="Differential oracle: the full listener is the reference (its own correctness is C04/C06)."),
 }
 
 NOT_YET = "check not built yet in this session (see DESIGN.md section 4 for the planned exploration)"
